@@ -15,8 +15,9 @@
      (99 / 100), OP_ELSE (103), OP_ENDIF (104), at most one OP_ELSE per OP_IF, any nesting depth (section 6). *)
 From Coq Require Import ZArith List Bool.
 From Coq.Strings Require Import Byte.
-From Verif Require Import Lib.Bytes Gen.GenConsts Model.Wire Model.EvalLib Model.EvalCore
-  Proofs.EvalNum Proofs.EvalOps Proofs.EvalRun Proofs.EvalRefute Proofs.EvalIf Proofs.EvalStd Proofs.EvalIfOpen.
+From Verif Require Import Lib.Bytes Gen.GenConsts Model.Wire Model.EvalLib Model.EvalCore Model.EvalSession
+  Proofs.EvalNum Proofs.EvalOps Proofs.EvalRun Proofs.EvalRefute Proofs.EvalIf Proofs.EvalStd Proofs.EvalIfOpen
+  Proofs.EvalEnv Proofs.EvalSession.
 Import ListNotations.
 Open Scope Z_scope.
 
@@ -866,6 +867,166 @@ Example htlc_empty_witness_refuted :
                      [x03; x01; x02; x03; x04; x05])) = Invalid.
 Proof. vm_compute. split; reflexivity. Qed.
 
+(* ------------------------------------------------------------------------------------------------
+   8. the ENVIRONMENT of an evaluation (nSequence, nLockTime, version): OP_CHECKSEQUENCEVERIFY /
+      OP_CHECKLOCKTIMEVERIFY against BIP112 / BIP65 on EVERY stack (operands minimal or not, of any length,
+      empty stack) and in EVERY environment (any values, present or absent), consensus flags (MINIMALDATA off).
+      seq_disable x = bit 31, seq_type x = bit 22, seq_value x = x mod 2^16 (Proofs/EvalEnv.v)
+   ------------------------------------------------------------------------------------------------ *)
+
+Theorem csv_agrees_all_env :
+  forall (h_ripemd160 h_sha1 h_sha256 : bytes -> bytes) (sigcheck : bytes -> bytes -> sigres) (fl : flags),
+    f_minimaldata fl = false ->
+    forall (e : env) (s : list bytes),
+      op_agree (lib_op h_ripemd160 h_sha1 h_sha256 sigcheck e K_CSV s)
+               (core_op h_ripemd160 h_sha1 h_sha256 sigcheck e fl K_CSV s).
+Proof. exact EvalEnv.csv_agrees_all_env. Qed.
+
+Theorem cltv_agrees_all_env :
+  forall (h_ripemd160 h_sha1 h_sha256 : bytes -> bytes) (sigcheck : bytes -> bytes -> sigres) (fl : flags),
+    f_minimaldata fl = false ->
+    forall (e : env) (s : list bytes),
+      op_agree (lib_op h_ripemd160 h_sha1 h_sha256 sigcheck e K_CLTV s)
+               (core_op h_ripemd160 h_sha1 h_sha256 sigcheck e fl K_CLTV s).
+Proof. exact EvalEnv.cltv_agrees_all_env. Qed.
+
+(* the library's OP_CHECKSEQUENCEVERIFY in closed form, field by field as BIP112 states it: operand negative ->
+   fail; operand bit 31 -> NOP; version < 2 -> fail; nSequence bit 31 -> fail; bit 22 of the two differ -> fail;
+   otherwise low 16 bits of the operand <= low 16 bits of nSequence.  No other bit of either value is read. *)
+Theorem lib_csv_is_bip112 :
+  forall (h_ripemd160 h_sha1 h_sha256 : bytes -> bytes) (sigcheck : bytes -> bytes -> sigres) (e : env)
+         (top : bytes) (r : stack) (sq ver : Z),
+    e_sequence e = Some sq -> e_version e = Some ver -> (length top <= 5)%nat ->
+    lib_op h_ripemd160 h_sha1 h_sha256 sigcheck e K_CSV (top :: r) =
+    if bip112_ok (lib_decode_num top) sq ver then ROk (top :: r) else RFalse (top :: r).
+Proof. exact EvalEnv.lib_csv_is_bip112. Qed.
+
+Theorem lib_cltv_is_bip65 :
+  forall (h_ripemd160 h_sha1 h_sha256 : bytes -> bytes) (sigcheck : bytes -> bytes -> sigres) (e : env)
+         (top : bytes) (r : stack) (sq tl : Z),
+    e_sequence e = Some sq -> e_locktime e = Some tl -> (length top <= 5)%nat ->
+    lib_op h_ripemd160 h_sha1 h_sha256 sigcheck e K_CLTV (top :: r) =
+    if bip65_ok (lib_decode_num top) tl sq then ROk (top :: r) else RFalse (top :: r).
+Proof. exact EvalEnv.lib_cltv_is_bip65. Qed.
+
+(* bits of nSequence outside DISABLE_FLAG | TYPE_FLAG | 0xffff (16-21, 23-30) never make a lock look satisfied:
+   or-ing them into nSequence changes neither the library's answer nor Core's, whatever the stack *)
+Theorem csv_ignores_stray_sequence_bits :
+  forall (h_ripemd160 h_sha1 h_sha256 : bytes -> bytes) (sigcheck : bytes -> bytes -> sigres) (e : env)
+         (s : stack) (sq stray : Z),
+    stray_bits stray ->
+    lib_op h_ripemd160 h_sha1 h_sha256 sigcheck (with_sequence e (Z.lor sq stray)) K_CSV s =
+    lib_op h_ripemd160 h_sha1 h_sha256 sigcheck (with_sequence e sq) K_CSV s.
+Proof. exact EvalEnv.csv_ignores_stray_sequence_bits. Qed.
+
+Theorem core_csv_ignores_stray_sequence_bits :
+  forall (h_ripemd160 h_sha1 h_sha256 : bytes -> bytes) (sigcheck : bytes -> bytes -> sigres) (fl : flags) (e : env)
+         (s : stack) (sq stray : Z),
+    f_minimaldata fl = false -> stray_bits stray ->
+    core_op h_ripemd160 h_sha1 h_sha256 sigcheck (with_sequence e (Z.lor sq stray)) fl K_CSV s =
+    core_op h_ripemd160 h_sha1 h_sha256 sigcheck (with_sequence e sq) fl K_CSV s.
+Proof. exact EvalEnv.core_csv_ignores_stray_sequence_bits. Qed.
+
+Theorem bip112_ignores_stray_operand_bits :
+  forall n sq ver stray : Z, 0 <= n -> 0 <= stray -> stray_bits stray ->
+    bip112_ok (Z.lor n stray) sq ver = bip112_ok n sq ver.
+Proof. exact EvalEnv.bip112_ignores_stray_operand_bits. Qed.
+
+(* Core reads the version as uint32_t; on the unsigned reading (what Transaction.version_int hands over) that cast
+   is the identity, so the theorems above are about Core's own comparison *)
+Theorem version_cast_is_identity_on_uint32 :
+  forall e : env,
+    match e_version e with Some v => 0 <= v < 4294967296 | None => True end -> env_u32_version e = e.
+Proof. exact EvalEnv.env_u32_version_id. Qed.
+
+(* non-vacuity and the seeded class: operand 10 against nSequence 0x00010005 (low 16 bits 5, a stray bit 16) is
+   rejected by BIP112 like nSequence 5, 0x0001000a is accepted like 10; 0x00010000 and 0x7fbf0000 are stray *)
+Example csv_stray_bit_witness :
+  bip112_ok 10 65541 2 = false /\ bip112_ok 10 5 2 = false /\ bip112_ok 10 65546 2 = true /\
+  stray_bits 65536 /\ stray_bits 2143223808 /\
+  lib_op idh idh idh nosig (with_sequence env1 65541) K_CSV [[x0a]] = RFalse [[x0a]] /\
+  core_op idh idh idh nosig (with_sequence env1 65541) consensus_flags K_CSV [[x0a]] = None /\
+  lib_op idh idh idh nosig (with_sequence env1 65546) K_CSV [[x0a]] = ROk [[x0a]] /\
+  (* a non-minimal operand (0a 00) and a 5-byte operand with the disable flag (00 00 00 80 00) *)
+  lib_op idh idh idh nosig (with_sequence env1 65546) K_CSV [[x0a; x00]] = ROk [[x0a; x00]] /\
+  core_op idh idh idh nosig (with_sequence env1 65546) consensus_flags K_CSV [[x0a; x00]] = Some [[x0a; x00]] /\
+  lib_op idh idh idh nosig (with_sequence env1 0) K_CSV [[x00; x00; x00; x80; x00]] = ROk [[x00; x00; x00; x80; x00]].
+Proof. vm_compute. repeat split. Qed.
+
+(* a version handed over as a SIGNED 32-bit number is outside the domain of the theorems: the library compares
+   the signed value (-2^31 < 2: lock not satisfied), Core's cast reads 2^31 (>= 2) *)
+Example csv_signed_version_refuted :
+  lib_op idh idh idh nosig (mkEnv None (Some 10) None (Some (-2147483648))) K_CSV [[x0a]] = RFalse [[x0a]] /\
+  core_op idh idh idh nosig (env_u32_version (mkEnv None (Some 10) None (Some (-2147483648)))) consensus_flags K_CSV [[x0a]]
+    = Some [[x0a]].
+Proof. vm_compute. split; reflexivity. Qed.
+
+(* ------------------------------------------------------------------------------------------------
+   9. several evaluations in ONE process (Model/EvalSession.v): Script objects live on between calls, the
+      signature check is a function of the message of each call.  lib_session folds over the object store
+      (commands, message, env_data, stack left behind); resolve computes, from the steps alone, which
+      (commands, message, env_data) every evaluate call denotes.
+   ------------------------------------------------------------------------------------------------ *)
+
+(* THE no-hidden-state obligation: a session is the MAP of the stateless evaluate over what its steps denote.
+   Nothing an evaluation does (the stack it leaves, the signatures it checked, the branches it consumed) reaches a
+   later evaluation, on the same object or on another one. *)
+Theorem evaluation_session_is_map :
+  forall (h_ripemd160 h_sha1 h_sha256 : bytes -> bytes) (sc : sigoracle) (xs : list sstep),
+    lib_session h_ripemd160 h_sha1 h_sha256 sc [] xs =
+    map (stateless_obs h_ripemd160 h_sha1 h_sha256 sc) (resolve [] xs).
+Proof. exact EvalSession.session_is_map. Qed.
+
+(* an evaluate call that names its message and env_data answers as a fresh evaluation of the commands its object
+   was constructed with: the steps before it (pre) and after it (rest) do not matter *)
+Theorem explicit_eval_ignores_history :
+  forall (h_ripemd160 h_sha1 h_sha256 : bytes -> bytes) (sc : sigoracle)
+         (pre rest : list sstep) (id : Z) (m : bytes) (e : env),
+    nth (length pre) (lib_session h_ripemd160 h_sha1 h_sha256 sc [] (pre ++ SEval id (Some m) (Some e) :: rest)) ONew =
+    match cmds_of id pre None with
+    | Some c => ORes (lib_eval h_ripemd160 h_sha1 h_sha256 (sc (Some m)) e c)
+    | None => OMissing
+    end.
+Proof. exact EvalSession.explicit_eval_ignores_history. Qed.
+
+(* consensus, evaluation by evaluation: a script that consensus rejects UNDER THE MESSAGE OF THAT EVALUATION is
+   not reported valid wherever in a session it is evaluated — a signature accepted earlier under another
+   message does not help (structured programs, good hash outputs, any signature oracle) *)
+Theorem session_never_valid_when_core_rejects :
+  forall (h_ripemd160 h_sha1 h_sha256 : bytes -> bytes) (sc : sigoracle) (fl : flags),
+    (forall x, good (h_ripemd160 x)) -> (forall x, good (h_sha1 x)) -> (forall x, good (h_sha256 x)) ->
+    forall (xs : list sstep) (i : nat) (r : lres),
+      nth_error (lib_session h_ripemd160 h_sha1 h_sha256 sc [] xs) i = Some (ORes r) -> r_verdict r = Valid ->
+      exists c m e cv,
+        nth_error (resolve [] xs) i = Some (REval c m e) /\
+        nth_error (core_session h_ripemd160 h_sha1 h_sha256 sc fl xs) i = Some (Some cv) /\
+        cv = core_eval h_ripemd160 h_sha1 h_sha256 (sc m) e fl c /\
+        (structured c -> fst cv = Valid).
+Proof. exact EvalSession.session_never_valid_structured. Qed.
+
+Theorem session_agrees_with_core :
+  forall (h_ripemd160 h_sha1 h_sha256 : bytes -> bytes) (sc : sigoracle) (fl : flags),
+    (forall x, good (h_ripemd160 x)) -> (forall x, good (h_sha1 x)) -> (forall x, good (h_sha256 x)) ->
+    forall (xs : list sstep) (i : nat) (r : lres),
+      nth_error (lib_session h_ripemd160 h_sha1 h_sha256 sc [] xs) i = Some (ORes r) ->
+      exists c m e,
+        nth_error (resolve [] xs) i = Some (REval c m e) /\
+        (structured c -> r_verdict r <> CrashIndex ->
+         agree r (core_eval h_ripemd160 h_sha1 h_sha256 (sc m) e fl c)).
+Proof. exact EvalSession.session_agrees_structured. Qed.
+
+(* non-vacuity: a signature oracle that accepts under message 0a only.  One P2PK object: valid under 0a, the same
+   signature replayed under 0b invalid, evaluate() without message keeps 0b (invalid), 0a again valid; a second
+   object ( 7 8 1 ) built and evaluated twice in between leaves 7 8 both times *)
+Example session_replay_witness :
+  map (fun o => match o with ORes r => Some (r_verdict r, r_stack r) | _ => None end)
+      (lib_session consth consth consth sc_demo [] demo_session) =
+  [None; Some (Valid, []); Some (Invalid, []); None; Some (Invalid, []); Some (Valid, [[x08]; [x07]]);
+   Some (Valid, [[x08]; [x07]]); Some (Valid, [])] /\
+  map (option_map fst) (core_session consth consth consth sc_demo consensus_flags demo_session) =
+  [None; Some Valid; Some Invalid; None; Some Invalid; Some Valid; Some Valid; Some Valid].
+Proof. split; [exact demo_session_obs|exact demo_session_core]. Qed.
+
 Print Assumptions dispatch_is_core_opcode.
 Print Assumptions dispatchable_all_modelled.
 Print Assumptions dispatch_only_dispatchable.
@@ -934,3 +1095,15 @@ Print Assumptions long_item_with_nonzero_head_is_good.
 Print Assumptions lib_scan_finds_no_endif.
 Print Assumptions agree_if_missing_endif.
 Print Assumptions missing_endif_never_valid.
+Print Assumptions csv_agrees_all_env.
+Print Assumptions cltv_agrees_all_env.
+Print Assumptions lib_csv_is_bip112.
+Print Assumptions lib_cltv_is_bip65.
+Print Assumptions csv_ignores_stray_sequence_bits.
+Print Assumptions core_csv_ignores_stray_sequence_bits.
+Print Assumptions bip112_ignores_stray_operand_bits.
+Print Assumptions version_cast_is_identity_on_uint32.
+Print Assumptions evaluation_session_is_map.
+Print Assumptions explicit_eval_ignores_history.
+Print Assumptions session_never_valid_when_core_rejects.
+Print Assumptions session_agrees_with_core.
